@@ -546,6 +546,8 @@ def make(seed, tri_only=False, poly_only=False, closed=None, connected=None, dis
         if disk and name == "fan_closed":
             pass
         V = np.asarray(V, float)
+        if len(V) == 0 or len(F) == 0:
+            continue
         if combinators:
             if allow_union and not disk and connected is not True and rng.random() < 0.15:
                 try:
